@@ -163,6 +163,12 @@ func TestVfC10Rules(t *testing.T) {
 			}
 			cfg.Rules = append(cfg.Rules, yr)
 		}
+		cacheOn := rapid.IntRange(0, 3).Draw(t, "cacheOn") == 0
+		if cacheOn {
+			// with a cache a forward decision still means exactly one upstream query for a question asked
+			// for the first time (every question is asked once per configuration)
+			cfg.Cache = &CacheCfg{MemSize: 1 << 20}
+		}
 		p, err := StartProxy(cfg.YAML(), files, ProxyOpts{})
 		if err != nil {
 			t.Fatalf("%v", err)
